@@ -221,10 +221,10 @@ def run_impl(case):
     # stamp datagram ids into arg1 and handle "after_send" deliveries
     orig_send = net.send
 
-    def send(data):
+    def send(data, sid=None):
         k = net.n_sent
         first_id = net.next_id
-        r = orig_send(data)
+        r = orig_send(data, sid)
         specs = [s for s in scr(k, data) if s[1] != "lost"]
         for i, did in enumerate(range(first_id, net.next_id)):
             q = [q for q in net.queue if q[2] == did][0]
